@@ -284,7 +284,7 @@ structure Limits : Prop where
   entWF : ∀ k, k < fl.length → (dentOf fl (bLrefs o fl) (bXl c o fl fuel) k).WF 0
   fragWF : (∀ e ∈ bFents c o fl, e.start < 2 ^ 64 ∧ e.size < 2 ^ 24) ∧ (bFents c o fl).length < noFrag
   sbWF : (bSB c o fl fuel).WF
-  idsWF : (∀ x ∈ idTable fl, x < 2 ^ 32) ∧ (idTable fl).length ≤ 16384
+  idsWF : (∀ x ∈ idTable fl, x < 2 ^ 32) ∧ (idTable fl).length ≤ 65535
 
 instance (b : Blk) : Decidable b.WF := by unfold Blk.WF; infer_instance
 instance (bs : Nat) (b : IBody) : Decidable (b.WF bs) := by cases b <;> (unfold IBody.WF; infer_instance)
@@ -304,7 +304,7 @@ def limitsB : Bool :=
   decide (∀ k, k < fl.length → (dentOf fl (bLrefs o fl) (bXl c o fl fuel) k).WF 0) &&
   decide ((∀ e ∈ bFents c o fl, e.start < 2 ^ 64 ∧ e.size < 2 ^ 24) ∧ (bFents c o fl).length < noFrag) &&
   decide (bSB c o fl fuel).WF &&
-  decide ((∀ x ∈ idTable fl, x < 2 ^ 32) ∧ (idTable fl).length ≤ 16384)
+  decide ((∀ x ∈ idTable fl, x < 2 ^ 32) ∧ (idTable fl).length ≤ 65535)
 
 /-- nesting depth of the directories below `d` is less than the fuel -/
 def fitsB : Nat → Nat → Bool
